@@ -9,3 +9,5 @@ import WowVerif.Props.C06
 #print axioms Wv.Mut.add_steps
 #print axioms Wv.Mut.remove_steps
 #print axioms Wv.Mut.session_reach
+#print axioms Wv.Mut.rename_steps
+#print axioms Wv.Mut.find_none_after_delete
